@@ -61,7 +61,15 @@ Definition lcase_ok (c : lcase) : bool :=
    Start, Add, process) runs on that queue; WorkQueue.Add is an Arrive, the start of the
    callback in the real worker goroutine is the Get, a callback returning nil (Forget + Done)
    is a Done, a callback returning an error (AddRateLimited + Done) is an Arrive followed by a
-   Done at the same instant. *)
+   Done at the same instant.
+   Reconciler cases use the same record too: the reconciler's real queue and rate limiter
+   (hook VerifNewReconcilerQueue) with every producer of requests: a watcher notification
+   accepted by the real handlers is `Arrive 0` (partial) or `Arrive 1` (full), the full sync
+   asked by leaderChanged(true) once the watchers run is `Arrive 1`, a Reconcile that failed
+   with an error is `Arrive item` then Done, one that returned RequeueAfter is
+   `Retry item d` then Done (Forget + AddAfter: the limiter is not consulted). A request
+   that reaches the queue without going through the limiter (queue.Add) does not match
+   `Arrive` and shows as a mismatch. *)
 Record qcase := { qid : N; qreload : bool; qdelta : Z; qwait : Z; qD : Z;
                   qevents : list (Z * qevent); qobs : list (Z * option nat) }.
 
